@@ -30,7 +30,8 @@ ASSUMPTIONS = ["sets whose 1e-6-rounded points collide (or may collide under eit
                "weights are compared to 1e-12"]
 TIERS = {"quick": dict(cases=4000, shards=8, case_timeout=120, shard_timeout=900),
          "thorough": dict(cases=40000, shards=16, case_timeout=120, shard_timeout=3000)}
-FLOORS = {"quick": {"permutations_checked": 3000, "canonical_ids_checked": 900, "define_register_checked": 3000,
+FLOORS = {"quick": {"invalid_trap_ids_refused": 5000, "wrong_recorded_trap_ids_sharing_a_coordinate_refused": 300,
+                    "permutations_checked": 3000, "canonical_ids_checked": 900, "define_register_checked": 3000,
                     "lookups_checked": 3000, "mappable_checked": 2000, "qubit_weights_checked": 8000,
                     "sets_with_near_ties": 750, "detuning_maps_built": 2500},
           "thorough": {"permutations_checked": 30000, "canonical_ids_checked": 9000, "define_register_checked": 30000,
@@ -253,6 +254,49 @@ def run_case(ctx, idx, rng, tier):
             except Exception as e:
                 ctx.violation("lookup", f"get_traps_from_coordinates of the original points raised {type(e).__name__}: "
                               f"{str(e)[:200]}", "lookup-original-coords-raised")
+    # ---- ids that name no trap, and recorded ids that are not where the qubits are (fault injection) ----------------
+    for bad in {-1, -n, n, n + 3}:
+        good = rng.sample(range(n), rng.randint(0, min(n, 2)))
+        ids_ = good + [bad]
+        rng.shuffle(ids_)
+        for how in ("define_register", "build_register"):
+            ctx.case = dict(ctx.case, invalid_trap_ids=ids_, via=how)
+            try:
+                if how == "define_register":
+                    regx = L.define_register(*ids_)
+                else:
+                    names_ = [f"m{i}" for i in range(len(ids_))]
+                    regx = MappableRegister(L, *names_).build_register(dict(zip(names_, ids_)))
+            except Exception:
+                ctx.count("invalid_trap_ids_refused")
+                continue
+            ctx.violation("register", f"{how} accepted the trap ids {ids_} of a layout with traps 0..{n - 1}; the qubit "
+                          f"recorded on trap {bad} sits at {list(arr(list(regx.qubits.values())[ids_.index(bad)]))}",
+                          f"invalid-trap-id-accepted:{'negative' if bad < 0 else 'too-large'}")
+    if n >= 2:
+        from pulser.register.register import Register
+        from pulser.register.register3d import Register3D
+        sel = rng.sample(range(n), rng.randint(2, min(n, 5)))
+        coords_ = {f"q{i}": td[t] for i, t in enumerate(sel)}
+        wrong = sel[1:] + sel[:1]  # every qubit recorded on another qubit's trap
+        cls_ = Register3D if dim == 3 else Register
+        ctx.case = dict(ctx.case, trap_ids=sel, recorded_trap_ids=wrong)
+        try:
+            cls_(coords_, layout=L, trap_ids=sel)
+            ctx.count("registers_with_recorded_layout_built")
+        except Exception as e:
+            ctx.violation("register", f"a register whose qubits sit on traps {sel} was refused with layout= and those "
+                          f"trap_ids=: {type(e).__name__}: {str(e)[:160]}", "register-with-layout-refused")
+        try:
+            cls_(coords_, layout=L, trap_ids=wrong)
+        except Exception:
+            ctx.count("wrong_recorded_trap_ids_refused")
+            shares = any(np.any(np.asarray(td[a]) == np.asarray(td[b])) for a, b in zip(sel, wrong))
+            if shares:
+                ctx.count("wrong_recorded_trap_ids_sharing_a_coordinate_refused")
+        else:
+            ctx.violation("register", f"a register whose qubits sit on traps {sel} was accepted with the recorded "
+                          f"trap_ids {wrong}", "wrong-recorded-trap-ids-accepted")
     # ---- mappable register -------------------------------------------------------------------------------
     for _ in range(2):
         nq = rng.randint(1, n)
